@@ -66,48 +66,82 @@ def d1_jackknife(ctx, obs):
     ctx.check(rule, 'obs.py:Obs.export_jackknife#leave-one-out', sp.simplify(J - (n * mean - xi) / (n - 1)) == 0, 'sample i = (n mean - x_i)/(n-1) = mean of the others',
               'jackknife sample is %s' % J, obs.loc(st[0]))
     ctx.check(rule, 'obs.py:Obs.export_jackknife#entry0', J0 == mean, 'entry 0 = central value', 'entry 0 = %s' % J0, obs.loc(st0[0]))
-    # importer: samples = jacks[1:] @ (ones - (length-1) * identity)
-    prj = find_def(im, 'prj')
+    # importer: translate the expression for `samples` over the symbols J_i (sample i), SJ (sum of all samples), J0 (entry 0), n
     smp = find_def(im, 'samples')
-    key = 'obs.py:import_jackknife#projector'
-    if len(prj) != 1 or len(smp) != 1:
-        ctx.unrec(rule, key, 'prj / samples definitions not found')
+    key = 'obs.py:import_jackknife#inverse'
+    jname = im.args.args[0].arg
+    if len(smp) != 1:
+        ctx.unrec(rule, key, 'samples not single-assigned')
         return
-    pv = prj[0].value
-    a_, b_ = sp.symbols('ONES IDENT', real=True)
+    Ji, SJ, J0 = sp.symbols('J_i SJ J0', real=True)
     ln = find_def(im, 'length')
-    okl = len(ln) == 1 and unparse(ln[0].value) == 'len(%s) - 1' % im.args.args[0].arg
+    okl = len(ln) == 1 and unparse(ln[0].value) == 'len(%s) - 1' % jname
+    loc_i = {s_.targets[0].id: s_.value for s_ in statements(im) if isinstance(s_, ast.Assign) and isinstance(s_.targets[0], ast.Name)}
 
-    def trp(e):
-        if isinstance(e, ast.Call):
-            d = obs.dotted(e.func) or ''
-            if d == 'numpy.ones':
-                return a_
-            if d in ('numpy.identity', 'numpy.eye'):
-                return b_
+    def proj(e):
+        """a*ones + b*identity -> (a, b)"""
+        a_, b_ = sp.symbols('ONES IDENT', real=True)
+
+        def t(e):
+            if isinstance(e, ast.Call):
+                d = obs.dotted(e.func) or ''
+                if d == 'numpy.ones':
+                    return a_
+                if d in ('numpy.identity', 'numpy.eye'):
+                    return b_
+            if isinstance(e, ast.Name) and e.id == 'length':
+                return n
+            if isinstance(e, ast.Name) and e.id in loc_i:
+                return t(loc_i[e.id])
+            if isinstance(e, ast.Constant):
+                return sp.Integer(e.value)
+            if isinstance(e, ast.BinOp):
+                x, y = t(e.left), t(e.right)
+                return {ast.Add: lambda: x + y, ast.Sub: lambda: x - y, ast.Mult: lambda: x * y}[type(e.op)]()
+            raise Unrecognised('projector term %s' % unparse(e))
+        P = sp.expand(t(e))
+        return P.coeff(a_), P.coeff(b_)
+
+    def ti(e):
+        txt = unparse(e)
+        if txt == '%s[1:]' % jname:
+            return Ji
+        if txt == '%s[0]' % jname:
+            return J0
         if isinstance(e, ast.Name) and e.id == 'length':
             return n
-        if isinstance(e, ast.Constant):
-            return sp.Integer(e.value)
+        if isinstance(e, ast.Constant) and isinstance(e.value, (int, float)):
+            return sp.nsimplify(e.value, rational=True)
+        if isinstance(e, ast.Call) and (obs.dotted(e.func) or '') in ('numpy.sum', 'sum') and len(e.args) == 1:
+            a = unparse(e.args[0])
+            if a == '%s[1:]' % jname:
+                return SJ
+            if a == jname:
+                return J0 + SJ
+            raise Unrecognised('sum over %s' % a)
+        if isinstance(e, ast.Call) and (obs.dotted(e.func) or '') in ('numpy.mean',) and len(e.args) == 1 and unparse(e.args[0]) == '%s[1:]' % jname:
+            return SJ / n
+        if isinstance(e, ast.BinOp) and isinstance(e.op, ast.MatMult):
+            if unparse(e.left) == '%s[1:]' % jname:
+                ca, cb = proj(e.right)
+                return ca * SJ + cb * Ji
+            raise Unrecognised('matrix product %s' % unparse(e))
         if isinstance(e, ast.BinOp):
-            x, y = trp(e.left), trp(e.right)
-            return {ast.Add: lambda: x + y, ast.Sub: lambda: x - y, ast.Mult: lambda: x * y}[type(e.op)]()
+            x, y = ti(e.left), ti(e.right)
+            return {ast.Add: lambda: x + y, ast.Sub: lambda: x - y, ast.Mult: lambda: x * y, ast.Div: lambda: x / y}[type(e.op)]()
+        if isinstance(e, ast.UnaryOp) and isinstance(e.op, ast.USub):
+            return -ti(e.operand)
         raise Unrecognised('cannot translate %s' % unparse(e))
     try:
-        P = trp(pv)
-    except Unrecognised as e:
-        ctx.unrec(rule, key, str(e))
+        expr = ti(smp[0].value)
+    except (Unrecognised, KeyError) as e:
+        ctx.unrec(rule, key, str(e), obs.loc(smp[0]))
         return
-    ca, cb = sp.expand(P).coeff(a_), sp.expand(P).coeff(b_)
-    # sample_i = sum_j J_j * P[j,i] = ca * sum_j J_j + cb * J_i
-    mv = MatX(obs, im, inline=False).t(smp[0].value)
-    okmm = mv == ('matmul', ('idx', ('sym', im.args.args[0].arg), '1:'), ('sym', 'prj'))
-    sumJ = (n * S - S) / (n - 1)            # sum_j (S - x_j)/(n-1) with S = sum x
-    Ji = (S - xi) / (n - 1)
-    rec = ca * sumJ + cb * Ji
-    ok = sp.simplify(rec - xi) == 0 and okmm and okl
-    ctx.check(rule, 'obs.py:import_jackknife#inverse', ok, 'sum_j J_j - (n-1) J_i = x_i for every n: import(export(x)) = x',
-              'import(export(x))_i = %s (projector %s, samples %s)' % (sp.simplify(rec), P, unparse(smp[0].value)), obs.loc(smp[0]))
+    # exported samples: J_i = (S - x_i)/(n-1), their sum is S, entry 0 is the mean S/n
+    rec = expr.subs({Ji: (S - xi) / (n - 1), SJ: S, J0: S / n})
+    ok = sp.simplify(rec - xi) == 0 and okl
+    ctx.check(rule, key, ok, 'import(export(x))_i = x_i for every chain length n (entry 0 is not part of the reconstruction)',
+              'import(export(x))_i = %s instead of x_i (samples = %s)' % (sp.simplify(rec), unparse(smp[0].value)), obs.loc(smp[0]))
     # result object
     oc = [c for c in walk(im) if isinstance(c, ast.Call) and call_name(c) == 'Obs']
     okc = len(oc) == 1 and unparse(oc[0].args[0]) == '[samples - mean]' and unparse(kwarg(oc[0], 'means')) == '[mean]' and unparse(kwarg(oc[0], 'idl')) == 'idl' \
@@ -199,6 +233,7 @@ def run(ctx):
 SELFTEST = [
     ('jack-n-over-n-1', 'pyerrors/obs.py', "tmp_jacks[1:] = (n * mean - full_data) / (n - 1)", "tmp_jacks[1:] = (n * mean - full_data) / n", 'C13-D1'),
     ('jack-projector', 'pyerrors/obs.py', "prj = (np.ones((length, length)) - (length - 1) * np.identity(length))", "prj = (np.ones((length, length)) - length * np.identity(length))", 'C13-D1'),
+    ('jack-sum-includes-mean', 'pyerrors/obs.py', "    prj = (np.ones((length, length)) - (length - 1) * np.identity(length))\n    samples = jacks[1:] @ prj", "    samples = np.sum(jacks) - (length - 1) * jacks[1:]", 'C13-D1'),
     ('jack-entry0', 'pyerrors/obs.py', "    new_obs._value = jacks[0]", "    new_obs._value = np.mean(jacks[1:])", 'C13-D1'),
     ('jack-idl-dropped', 'pyerrors/obs.py', "new_obs = Obs([samples - mean], [name], idl=idl, means=[mean])", "new_obs = Obs([samples - mean], [name], means=[mean])", 'C13-D1'),
     ('jack-linalg-idl', 'pyerrors/linalg.py', "            base_matrix[index] = import_jackknife(entry, name, [idl])\n        return base_matrix\n\n    def _exp_to_jack_c", "            base_matrix[index] = import_jackknife(entry, name)\n        return base_matrix\n\n    def _exp_to_jack_c", 'C13-D1'),
@@ -206,5 +241,6 @@ SELFTEST = [
     ('boot-seed-global', 'pyerrors/obs.py', "            random_numbers = rng.integers(0, length, size=(samples, length))", "            random_numbers = np.random.randint(0, length, size=(samples, length))", 'C13-D3'),
     ('boot-seed-value', 'pyerrors/obs.py', "seed = int(hashlib.md5(name.encode()).hexdigest(), 16) & 0xFFFFFFFF", "seed = (int(hashlib.md5(name.encode()).hexdigest(), 16) + length) & 0xFFFFFFFF", 'C13-D3'),
     ('boot-guard', 'pyerrors/obs.py', "    if samples < length:\n        raise ValueError(\"Obs can't be reconstructed", "    if samples < 1:\n        raise ValueError(\"Obs can't be reconstructed", 'C13-D2'),
+    ('benign-importer-rewrite', 'pyerrors/obs.py', "    prj = (np.ones((length, length)) - (length - 1) * np.identity(length))\n    samples = jacks[1:] @ prj", "    samples = np.sum(jacks[1:]) - (length - 1) * jacks[1:]", 'BENIGN'),
     ('benign-jack-rewrite', 'pyerrors/obs.py', "tmp_jacks[1:] = (n * mean - full_data) / (n - 1)", "tmp_jacks[1:] = mean + (mean - full_data) / (n - 1)", 'BENIGN'),
 ]
